@@ -382,4 +382,10 @@ def run(ctx, report):
     # the id of a record belongs to the key in its own content also after a *failed* update (atomicity) and for every build (key stored last)
     c06.run(ctx, Only(report, {"ATOMIC": "ATOMIC"}))
     c05.build_rule(ctx, Only(report, {"BUILD": "KEYED-BUILD"}))
+    # "equals the id derived from the value returned by the public-key accessor": which entry public_key() reads
+    from rules import c01
+    c01.pubkey_rule(ctx, Only(report, {"PUBKEY": "PUBKEY"}))
+    # the outcome of a call is decided by its arguments: no static carries state from one call to the next
+    from rules.purity import hidden_state
+    hidden_state(ctx, report)
 
